@@ -40,8 +40,8 @@ type Call18 struct {
 type Turn18 struct {
 	Content string   `json:"content"`
 	Calls   []Call18 `json:"calls,omitempty"`
-	Chunks  int      `json:"chunks"`          // number of stream chunks
-	Late    bool     `json:"late,omitempty"`  // tool calls arrive after a content chunk (needs the whole-stream checker)
+	Chunks  int      `json:"chunks"`           // number of stream chunks
+	Late    bool     `json:"late,omitempty"`   // tool calls arrive after a content chunk (needs the whole-stream checker)
 	IDLate  bool     `json:"idlate,omitempty"` // id, type and name of the tool calls arrive in the chunk after the first argument fragment
 }
 
